@@ -5,20 +5,96 @@
 //!                                    packet, r = arbitrary bytes
 //!   `p <hex pk> <hex sig> <ts> <hex dns> <vp><vs><dp>`   arguments of `from_parts_unchecked`
 //!       (B = pk ‖ sig ‖ be64(ts) ‖ dns)
+//!   `res <kind> <hex asked key> <status> <hex body> <vp><vs><dp>`   untrusted-input caller: the REAL
+//!       `iroh::address_lookup::PkarrRelayClient::resolve(asked)` against a scripted HTTP server
+//!       (raw TCP in this harness) that answers with `<status>` and `<body>`; kinds: honest payload
+//!       for the asked key, payload signed by another key, COMPLETE packet of another key, complete
+//!       packet of the asked key, truncated, garbage, non-success statuses.  Verdict bits are for
+//!       B = asked ‖ body (what `from_relay_payload` assembles).
 //! The three verdict bits are the answers of the real libraries on B and are *inputs* of the
 //! Lean model (cryptography and DNS wire parsing are abstract there):
 //!   vp = B[..32] is a valid ed25519 point, vs = verify_strict(B[..32], signable(ts, dns), B[32..96])
 //!   with the harness' own BEP44 `signable`, dp = simple_dns parses B[104..].
 //! output:
 //!   b: `fb=<res> fbu=<res> frp=<res|na> sg=<signable digest|na>`   p: `fpu=<res>`
+//!   res: `rs=<res>` with `err:Http` (non-success status) / `err:Verify:<Class>`
 //!   res = `err:<Class>` | `ok[pk:<hex|panic>,sig:<hex>,ts:<n>,dns:<len>,relay:<len>,txt:<ok|panic>,all:<ok|panic>,disp:<ok|panic>,dbg:<ok|panic>]`
 use std::panic::{AssertUnwindSafe, catch_unwind};
 
+use std::sync::{Arc, Mutex};
+
+use iroh::{
+    address_lookup::PkarrRelayClient,
+    dns::DnsResolver,
+    tls::{CaTlsConfig, default_provider},
+};
 use iroh_base::{PublicKey, SecretKey, Signature};
 use iroh_dns::pkarr::{SignedPacket, SignedPacketVerifyError, Timestamp, verif_hooks};
+use tokio::io::{AsyncReadExt, AsyncWriteExt};
 use vcommon::*;
 
-struct C32;
+/// The scripted pkarr relay: every GET is answered with the current (status, body).
+struct Relay {
+    rt: tokio::runtime::Runtime,
+    script: Arc<Mutex<(u16, Vec<u8>)>>,
+    requests: Arc<Mutex<Vec<String>>>,
+    client: PkarrRelayClient,
+}
+
+impl Relay {
+    fn start() -> Self {
+        let rt = tokio::runtime::Builder::new_multi_thread()
+            .worker_threads(2)
+            .enable_all()
+            .build()
+            .expect("runtime");
+        let script = Arc::new(Mutex::new((200u16, Vec::new())));
+        let requests = Arc::new(Mutex::new(Vec::new()));
+        let (script2, requests2) = (script.clone(), requests.clone());
+        let port = rt.block_on(async move {
+            let listener = tokio::net::TcpListener::bind("127.0.0.1:0").await.expect("bind");
+            let port = listener.local_addr().expect("addr").port();
+            tokio::spawn(async move {
+                loop {
+                    let Ok((mut sock, _)) = listener.accept().await else { continue };
+                    let (script, requests) = (script2.clone(), requests2.clone());
+                    tokio::spawn(async move {
+                        let mut buf = Vec::new();
+                        let mut chunk = [0u8; 1024];
+                        while !buf.windows(4).any(|w| w == b"\r\n\r\n") {
+                            match sock.read(&mut chunk).await {
+                                Ok(0) | Err(_) => return,
+                                Ok(n) => buf.extend_from_slice(&chunk[..n]),
+                            }
+                        }
+                        let line = String::from_utf8_lossy(&buf).lines().next().unwrap_or("").to_string();
+                        requests.lock().unwrap().push(line);
+                        let (status, body) = script.lock().unwrap().clone();
+                        let head = format!(
+                            "HTTP/1.1 {status} Scripted\r\nContent-Type: application/octet-stream\r\nContent-Length: {}\r\nConnection: close\r\n\r\n",
+                            body.len()
+                        );
+                        let _ = sock.write_all(head.as_bytes()).await;
+                        let _ = sock.write_all(&body).await;
+                        let _ = sock.shutdown().await;
+                    });
+                }
+            });
+            port
+        });
+        let url: url::Url = format!("http://127.0.0.1:{port}/pkarr").parse().expect("url");
+        let client = {
+            let _guard = rt.enter();
+            let tls = CaTlsConfig::default().client_config(default_provider()).expect("tls config");
+            PkarrRelayClient::new(url, tls, DnsResolver::default())
+        };
+        Relay { rt, script, requests, client }
+    }
+}
+
+struct C32 {
+    relay: Option<Relay>,
+}
 
 const HEADER: usize = 104;
 const MAX_TOTAL: usize = 1104;
@@ -281,6 +357,52 @@ fn b_payload(tag: &str, b: &[u8]) -> String {
     format!("b {tag} {} {}", hex(b), bits(verdicts(b)))
 }
 
+fn res_payload(kind: &str, asked: &PublicKey, status: u16, body: &[u8]) -> String {
+    let mut b = asked.as_bytes().to_vec();
+    b.extend_from_slice(body);
+    format!("res {kind} {} {status} {} {}", hex(asked.as_bytes()), hex(body), bits(verdicts(&b)))
+}
+
+/// Responses a (malicious) pkarr relay may give to a lookup of `asked`.
+fn res_cases(rng: &mut Rng, out: &mut Vec<String>, count: usize) {
+    const OK: [u16; 5] = [200, 200, 200, 201, 299];
+    const BAD: [u16; 9] = [300, 301, 400, 401, 404, 429, 500, 502, 503];
+    for _ in 0..count {
+        let x = honest(rng); // complete packet of X
+        let asked = PublicKey::try_from(&x[..32]).expect("key");
+        let y = honest(rng); // complete packet of Y
+        let status = if rng.chance(1, 6) { *rng.pick(&BAD) } else { *rng.pick(&OK) };
+        match rng.below(10) {
+            0 | 1 => out.push(res_payload("honest", &asked, status, &x[32..])),
+            2 => out.push(res_payload("foreign-payload", &asked, status, &y[32..])),
+            3 | 4 => out.push(res_payload("foreign-complete", &asked, status, &y)),
+            5 => out.push(res_payload("own-complete", &asked, status, &x)),
+            6 => {
+                let cut = rng.usize_below(x.len() - 32);
+                out.push(res_payload("truncated", &asked, status, &x[32..32 + cut]));
+            }
+            7 => {
+                let len = *rng.pick(&[0usize, 1, 71, 72, 73, 200, 1072, 1073]);
+                out.push(res_payload("garbage", &asked, status, &rng.bytes(len)));
+            }
+            8 => {
+                let m = mutate(rng, &x);
+                out.push(res_payload("mutated", &asked, status, &m[32.min(m.len())..]));
+            }
+            _ => {
+                // a complete foreign packet glued behind / in front of other bytes
+                let mut b = y.clone();
+                b.extend_from_slice(&x[32..]);
+                out.push(res_payload("foreign-complete-plus", &asked, status, &b));
+            }
+        }
+    }
+    let x = honest(rng);
+    let asked = PublicKey::try_from(&x[..32]).expect("key");
+    out.push(res_payload("honest", &asked, 204, &[]));
+    out.push(res_payload("honest", &asked, 304, &[]));
+}
+
 fn p_payload(pk: &[u8], sig: &[u8], ts: u64, dns: &[u8]) -> String {
     let mut b = pk.to_vec();
     b.extend_from_slice(sig);
@@ -316,6 +438,8 @@ impl Prop for C32 {
             b[i] ^= 0x01;
             out.push(b_payload("m", &b));
         }
+        // the untrusted-input caller: PkarrRelayClient::resolve against a scripted relay
+        res_cases(rng, out, if tier == Tier::Thorough { 3000 } else { 300 });
         while out.len() < n {
             match rng.below(20) {
                 0..=3 => out.push(b_payload("h", &honest(rng))),
@@ -446,6 +570,69 @@ impl Prop for C32 {
                 ex.tags.push(format!("fb-{}", fb_s.split('[').next().unwrap_or("")));
                 ex.tags.push(format!("fbu-{}", fbu_s.split('[').next().unwrap_or("")));
             }
+            ["res", kind, hk, status, hbody, vb] => {
+                let k = unhex(hk).expect("hex");
+                let asked = PublicKey::try_from(&k[..]).expect("asked key is valid");
+                let status: u16 = status.parse().expect("status");
+                let body = unhex(hbody).expect("hex");
+                let mut b = k.clone();
+                b.extend_from_slice(&body);
+                let v = verdicts(&b);
+                assert_eq!(bits(v), *vb, "verdict bits in the payload do not match the libraries");
+                let relay = self.relay.get_or_insert_with(Relay::start);
+                *relay.script.lock().unwrap() = (status, body.clone());
+                relay.requests.lock().unwrap().clear();
+                let r = relay.rt.block_on(relay.client.resolve(asked));
+                let reqs = relay.requests.lock().unwrap().clone();
+                let want_req = format!("GET /pkarr/{} HTTP/1.1", asked.to_z32());
+                if reqs != vec![want_req.clone()] {
+                    ex.violation("resolver-request", format!("requests {reqs:?}, expected one `{want_req}`"));
+                }
+                let success = (200..=299).contains(&status);
+                let authentic = success && (HEADER..=MAX_TOTAL).contains(&b.len()) && v.0 && v.1 && v.2;
+                let s = match r {
+                    Ok(p) => {
+                        // the statement, for the key that was asked for
+                        let got_key = guard(|| p.public_key());
+                        if got_key != Some(asked) {
+                            ex.violation(
+                                "resolver-accepted-foreign-packet",
+                                format!("lookup of {} returned a packet of key {:?} (response kind {kind}, status {status})", asked.fmt_short(), got_key.map(|k| k.fmt_short().to_string())),
+                            );
+                        }
+                        if !authentic {
+                            ex.violation("resolver-accepted-unauthentic", format!("response kind {kind}, status {status}, verdicts {vb} for asked‖body"));
+                        }
+                        let pb = p.as_bytes().to_vec();
+                        render("resolve", Ok(p), &pb, &mut ex)
+                    }
+                    Err(e) => {
+                        if authentic {
+                            ex.violation("rejects-authentic", format!("resolve rejected an authentic response: {e:#}"));
+                        }
+                        let text = format!("{e:#} {e:?}");
+                        if text.contains("Error resolving http request") || text.contains("HttpRequest") {
+                            "err:Http".to_string()
+                        } else if text.contains("too short") {
+                            "err:Verify:TooShort".to_string()
+                        } else if text.contains("too large") {
+                            "err:Verify:TooLarge".to_string()
+                        } else if text.contains("Invalid signature") {
+                            "err:Verify:SignatureError".to_string()
+                        } else if text.contains("DNS decoding error") {
+                            "err:Verify:DnsError".to_string()
+                        } else if text.contains("Invalid public key") {
+                            "err:Verify:InvalidKey".to_string()
+                        } else {
+                            format!("err:Other:{}", text.replace(' ', "_"))
+                        }
+                    }
+                };
+                ex.out = format!("rs={s}");
+                ex.nontrivial = success && b.len() >= HEADER;
+                ex.tags.push(format!("res-{kind}"));
+                ex.tags.push(format!("rs-{}", s.split('[').next().unwrap_or("")));
+            }
             ["p", hpk, hsig, ts, hdns, vb] => {
                 let pk = unhex(hpk).expect("hex");
                 let sig = unhex(hsig).expect("hex");
@@ -471,5 +658,5 @@ impl Prop for C32 {
 }
 
 fn main() {
-    run(C32);
+    run(C32 { relay: None });
 }
